@@ -249,7 +249,21 @@ func (g *gen) faultStmt() ([]zn.Stmt, zn.Stmt, string) {
 	div := func(den zn.Expr) zn.Expr {
 		return &zn.Bin{Op: ">", L: &zn.Bin{Op: "/", L: num(10), R: &zn.Grp{E: den}}, R: num(0)}
 	}
-	switch g.pick(20, "fault") {
+	switch g.pick(22, "fault") {
+	case 21:
+		// an object creation standing as a statement of its own, a fault in one of its arguments
+		g.labels["fault-in-argument-of-object-creation-statement"] = true
+		cn := fmt.Sprintf("造类%d", g.n)
+		return []zn.Stmt{&zn.ClassDef{Name: cn, Props: []zn.Prop{{Name: "值", Init: num(0)}}}, &zn.CtorDef{Class: cn, Params: []string{"参"}, Body: []zn.Stmt{&zn.ExprStmt{E: &zn.Assign{Target: &zn.This{Name: "值"}, E: v("参")}}}}},
+			&zn.ExprStmt{E: &zn.New{Class: cn, Args: []zn.Expr{&zn.Bin{Op: "/", L: num(1), R: num(0)}}}}, "division by zero in an argument of an object creation that is a statement of its own"
+	case 20:
+		// ... and a fault inside the constructor it calls: the creation's line is the call site
+		g.labels["fault-in-constructor-of-object-creation-statement"] = true
+		cn := fmt.Sprintf("构类%d", g.n)
+		bad := &zn.Let{Names: []string{"坏构"}, E: &zn.Bin{Op: "/", L: v("参"), R: num(0)}}
+		g.extraTail = bad
+		return []zn.Stmt{&zn.ClassDef{Name: cn, Props: []zn.Prop{{Name: "值", Init: num(0)}}}, &zn.CtorDef{Class: cn, Params: []string{"参"}, Body: []zn.Stmt{show(&zn.Str{V: "构造中"}), bad}}},
+			&zn.ExprStmt{E: &zn.New{Class: cn, Args: []zn.Expr{num(7)}}}, "division by zero inside the constructor called by an object creation that is a statement of its own"
 	case 19:
 		// the condition of a later 再如 branch fails: reported at the line of THAT branch
 		g.labels["fault-in-else-if-condition"] = true
